@@ -385,9 +385,9 @@ PROPS["C14"] = {
 PROPS["C16"] = {
     "level": "exploration",
     "technique": "stateful property-based testing (rapidcheck) + bounded exhaustive enumeration of operation sequences against a latest-message map model",
-    "rule": "cases = sequences of {update(capture-module status | interface status | data packet of device d, interface i), "
+    "rule": "cases = sequences of {update(capture-module status | interface status | data packet | message of another kind (other status payload types, vendor, control, invalid-typed) of device d, interface i), "
             "removeDeviceById, removeInterfaceById, clear} over d in {0,1,2,3,65535}, i in {0,1,2,0xFFFFFFFF}, packets built through the "
-            "API or obtained from Decoder::decode; exhaustive: all sequences up to length 4 (thorough 5) over a 12-operation alphabet, "
+            "API or obtained from Decoder::decode; exhaustive: all sequences up to length 4 (thorough 5) over a 13-operation alphabet, "
             "random up to 60 (thorough 120) operations; non-trivial when an effective removal / clear is followed by a further status "
             "update; distinct = distinct serialized sequences",
     "assumptions": COMMON_ASSUMPTIONS + ["entry order is not asserted (only ids, counts, lookups and stored packets)"],
